@@ -236,7 +236,7 @@ func streamBuiltins(o *Out, r *rand.Rand, n int, thorough bool) {
 				}
 				if depth != wantDepth {
 					o.Fail(Failure{Oracle: "package-symbol-identity", Key: "package-type-indirection:" + p + "." + k,
-						Input: fmt.Sprintf("pk = import(%q)\ntypeOf(make([]pk.%s, 1))", p, k),
+						Input:  fmt.Sprintf("pk = import(%q)\ntypeOf(make([]pk.%s, 1))", p, k),
 						Detail: fmt.Sprintf("the entry is %d pointer level(s) away from the Go type %s.%s it is listed under (expected %d)", depth, p, k, wantDepth)})
 				}
 				if t.PkgPath() == "" || strings.Contains(t.PkgPath(), "mattn/anko/packages") || (p == "os" && k == "Signal") {
